@@ -104,6 +104,9 @@ impl<'a> Visitor<'a> for KnownArgumentNames<'a> {
     }
 
     fn enter_field(&mut self, ctx: &mut VisitorContext<'a>, field: &'a Positioned<Field>) {
+        // a field the parent type does not have is reported elsewhere; its arguments must not be
+        // judged against the arguments of the enclosing field
+        self.current_args = None;
         if let Some(parent_type) = ctx.parent_type()
             && let Some(schema_field) = parent_type.field_by_name(&field.node.name.node)
         {
